@@ -492,6 +492,16 @@ fn domain() -> impl Strategy<Value = Vec<u8>> {
         3 => prop::sample::select(vec![0usize, 1, 2, 254, 255]).prop_flat_map(|n| prop::collection::vec(any::<u8>(), n..=n)),
         4 => prop::collection::vec(any::<u8>(), 0..=255),
         3 => "[a-z0-9.-]{1,40}".prop_map(String::into_bytes),
+        // names that mean something to some layer (IP literals in every notation, bracketed literals, names with ports, case, dots,
+        // control characters): to the SOCKS readers a DOMAINNAME is an opaque octet string and must come back verbatim
+        3 => prop::sample::select(vf_common::host_dictionary().into_iter().filter(|h| h.len() <= 255).collect::<Vec<_>>()),
+    ]
+}
+/// the same for the NUL-terminated strings of SOCKS4/4a
+fn nonzero_name() -> impl Strategy<Value = Vec<u8>> {
+    prop_oneof![
+        4 => nonzero_bytes(255),
+        1 => prop::sample::select(vf_common::host_dictionary().into_iter().filter(|h| h.len() <= 255 && !h.contains(&0)).collect::<Vec<_>>()),
     ]
 }
 fn addr5() -> impl Strategy<Value = Addr5S> {
@@ -506,7 +516,7 @@ fn req() -> impl Strategy<Value = Req> {
         6 => (prop_oneof![9 => Just(5u8), 1 => any::<u8>()], any::<u8>(), any::<u8>(), addr5(), any::<u16>()).prop_map(|(ver, cmd, rsv, addr, port)| Req::V5 { ver, cmd, rsv, addr, port }),
         1 => (any::<u8>(), any::<u8>(), any::<u8>().prop_filter("known atyp", |a| ![1, 3, 4].contains(a)), prop::collection::vec(any::<u8>(), 0..8)).prop_map(|(cmd, rsv, atyp, tail)| Req::V5BadAtyp { cmd, rsv, atyp, tail }),
         3 => (any::<u8>(), any::<u16>(), (1u8..=255, any::<u8>(), any::<u8>(), any::<u8>()), nonzero_bytes(255)).prop_map(|(cmd, port, ip, userid)| Req::V4 { cmd, port, ip: [ip.0, ip.1, ip.2, ip.3], userid }),
-        3 => (any::<u8>(), any::<u16>(), 1u8..=255, nonzero_bytes(255), nonzero_bytes(255)).prop_map(|(cmd, port, x, userid, domain)| Req::V4a { cmd, port, x, userid, domain }),
+        3 => (any::<u8>(), any::<u16>(), 1u8..=255, nonzero_name(), nonzero_name()).prop_map(|(cmd, port, x, userid, domain)| Req::V4a { cmd, port, x, userid, domain }),
         1 => prop::collection::vec(any::<u8>(), 0..=255).prop_map(|methods| Req::Auth { methods }),
     ]
 }
@@ -540,7 +550,7 @@ fn outcase() -> impl Strategy<Value = OutCase> {
 }
 
 pub fn run(ctx: &Ctx, rep: &mut Report) {
-    rep.rule = "requests built by an independent RFC 1928 / SOCKS4(a) grammar (all commands, RSV bytes, address types, domain length 0..=255, user-id/domain strings of 0..=255 non-NUL bytes, boundary-biased), \
+    rep.rule = "requests built by an independent RFC 1928 / SOCKS4(a) grammar (all commands, RSV bytes, address types, domain length 0..=255, user-id/domain strings of 0..=255 non-NUL bytes, boundary-biased; one name in five comes from a dictionary of 130 hosts that mean something to some layer - IP literals in every notation, bracketed IPv6 literals, names with ports, letter case, trailing dots, control characters), \
                 served in generated chunkings with trailing bytes, complete or cut at every possible point (EOF or pending reader); replies for all codes/addresses; UDP relay header \
                 build+parse. Non-trivial = domain length in {0,1,255}, an IPv6 address, a cut inside a variable-length field, 1-byte chunking, or a UDP payload <= 3 bytes. Distinct = distinct case value."
         .into();
